@@ -171,7 +171,7 @@ def _expr_simp(e):
             while len(args) >= 2 and isinstance(args[-1], ExprInt) and isinstance(args[-2], ExprInt):
                 i1 = args.pop()
                 i2 = args.pop()
-                if i1.get_size() != i2.get_size():
+                if i1.get_size() != i2.get_size() and not op in ['>>', '<<']:
                     raise ValueError("diff size! %s %r %r"%(str(e),
                                                             i1.get_size(),
                                                             i2.get_size()))
@@ -186,14 +186,15 @@ def _expr_simp(e):
                 elif op == '|':
                     o = i1.arg | i2.arg
                 elif op == '>>':
-                    o = i2.arg >> i1.arg
+                    # the count may be narrower than the value (cl, imm8)
+                    o = i2.arg >> int(i1.arg)
                 elif op == '<<':
                     if i1.arg >= i2.get_size():
                         o = 0
                     else:
-                        o = i2.arg << i1.arg
+                        o = i2.arg << int(i1.arg)
 
-                o = ExprInt(tab_size_int[i1.get_size()](o))
+                o = ExprInt(tab_size_int[i2.get_size()](o))
                 args.append(o)
         # --(A) => A
         if op == '-' and len(args) == 1 and isinstance(args[0], ExprOp) and \
